@@ -29,9 +29,10 @@ def gen(ctx, tier, rng):
     for s in range(0, 3 * PG + 2):
         L.append("alloc.layout %d" % s)
     M = (1 << 64) - 1
-    for s in [M, M - 1, M - 4 * PG, M - 4 * PG - 1, M - 4 * PG + 1, M - 5 * PG, 1 << 63]:
-        if s >= M - 4 * PG:
-            L.append("alloc.layout %d" % s)          # must be ENOMEM without touching anything
+    # sizes the guard must refuse, sizes just below it (arithmetic must not wrap; the OS then refuses the huge mapping with ENOMEM)
+    for s in [M, M - 1, 1 << 63, 1 << 48] + [M - k * PG + d for k in (3, 4, 5, 6) for d in (-17, -16, -15, -2, -1, 0, 1)]:
+        if 0 <= s <= M:
+            L.append("alloc.layout %d" % s)
     for (c, s) in [(0, 0), (0, 5), (5, 0), (1, 1), (3, 5), (1 << 32, 1 << 32), ((1 << 32) + 1, 1 << 32), (1 << 32, (1 << 32) - 1), (2, 1 << 63), (M, 1), (1, M), (M, M),
                    (3, (M // 3) + 1), (3, M // 3), (7, 8191), (1 << 20, 1 << 44), ((1 << 44) + 1, 1 << 20)]:
         # only in-range products that are small, or refusals: never ask for terabytes
